@@ -178,6 +178,7 @@ SCALARS += [
     ("gen_th_power", ["C16"], pick(lambda: consts_in_local_assign("openaerostruct/structures/compute_thrust_loads.py", "ComputeThrustLoads", "compute", "dist10", 1), 0)),
 ]
 
+FAILED = []      # (name, props, message) of items the translator refused on this run
 TABLES = []      # filled by later sections (name, props, function returning coq text)
 EXTRA = []       # (filename, props, function returning full file text)
 
@@ -187,10 +188,16 @@ def gen_constants():
              "From Coq Require Import ZArith List.", "From OAS Require Import Scalar.", "Import ListNotations.", "",
              "Section Gen.", "  Context {T : Type} {K : Ops T}."]
     for name, props, loc in SCALARS:
-        node, src = loc()
-        lines.append("  Definition %s : T := %s.   (* %s *)" % (name, coq_of_const_expr(node, src), num_text(node, src)))
+        try:
+            node, src = loc()
+            lines.append("  Definition %s : T := %s.   (* %s *)" % (name, coq_of_const_expr(node, src), num_text(node, src)))
+        except (Refuse, SyntaxError, OSError, IndexError, KeyError, ValueError) as e:
+            FAILED.append((name, props, "%s: %s" % (type(e).__name__, e)))
     for name, props, fn in TABLES:
-        lines.append(fn())
+        try:
+            lines.append(fn())
+        except (Refuse, SyntaxError, OSError, IndexError, KeyError, ValueError) as e:
+            FAILED.append((name, props, "%s: %s" % (type(e).__name__, e)))
     lines.append("End Gen.")
     return "\n".join(lines) + "\n"
 
@@ -207,13 +214,19 @@ def write_if_changed(path, text):
 def run():
     """returns (ok, log)"""
     _trees.clear()
+    del FAILED[:]
     try:
         os.makedirs(GEN, exist_ok=True)
         changed = []
         if write_if_changed(os.path.join(GEN, "Constants.v"), gen_constants()):
             changed.append("Constants.v")
         for fname, props, fn in EXTRA:
-            if write_if_changed(os.path.join(GEN, fname), fn()):
+            try:
+                txt = fn()
+            except (Refuse, SyntaxError, OSError, IndexError, KeyError, ValueError) as e:
+                FAILED.append((fname, props, "%s: %s" % (type(e).__name__, e)))
+                continue
+            if write_if_changed(os.path.join(GEN, fname), txt):
                 changed.append(fname)
         return True, "generated; changed: %s" % (", ".join(changed) or "nothing")
     except Refuse as e:
@@ -229,7 +242,72 @@ def obligations_for(prop):
     return obl
 
 
+
+
+# ---- atmosphere tables (common/atmos_comp.py) --------------------------------------------------
+def _attr_array_assign(relpath, obj, attr):
+    t, src = tree(relpath)
+    hits = []
+    for n in t.body:
+        if isinstance(n, ast.Assign) and len(n.targets) == 1:
+            tg = n.targets[0]
+            if isinstance(tg, ast.Attribute) and isinstance(tg.value, ast.Name) and tg.value.id == obj and tg.attr == attr:
+                hits.append(n.value)
+    if len(hits) != 1:
+        raise Refuse("%s: expected exactly one assignment %s.%s, found %d" % (relpath, obj, attr, len(hits)))
+    v = hits[0]
+    if not (isinstance(v, ast.Call) and isinstance(v.func, ast.Attribute) and v.func.attr == "array" and len(v.args) == 1
+            and isinstance(v.args[0], ast.List)):
+        raise Refuse("%s: %s.%s is not np.array([...])" % (relpath, obj, attr))
+    out = []
+    for e in v.args[0].elts:
+        neg = False
+        if isinstance(e, ast.UnaryOp) and isinstance(e.op, ast.USub):
+            neg, e = True, e.operand
+        if not (isinstance(e, ast.Constant) and isinstance(e.value, (int, float)) and not isinstance(e.value, bool)):
+            raise Refuse("%s: non-literal entry in %s.%s" % (relpath, obj, attr))
+        d = Decimal(num_text(e, src).replace("_", ""))
+        if neg:
+            d = -d
+        exp = max(0, -d.as_tuple().exponent)
+        den = 10 ** exp
+        out.append((int(d * den), den))
+    return out
+
+
+def gen_atmos_table():
+    rel = "openaerostruct/common/atmos_comp.py"
+    cols = [("alt", "alt"), ("T", "T"), ("P", "P"), ("rho", "rho"), ("a", "a"), ("mu", "viscosity")]
+    lines = ["(* GENERATED by harness/translate.py from %s/%s — do not edit *)" % (REPO, rel),
+             "From Coq Require Import ZArith QArith List.", "From OAS Require Import Scalar.", "Import ListNotations.", "Open Scope Z_scope.", ""]
+    n = None
+    for cname, attr in cols:
+        data = _attr_array_assign(rel, "USatm1976Data", attr)
+        if n is None:
+            n = len(data)
+        if len(data) != n:
+            raise Refuse("atmosphere table columns have different lengths")
+        lines.append("Definition atm_%s_zz : list (Z * Z) := [%s]." % (cname, "; ".join("(%d, %d)" % p for p in data)))
+    lines.append("Definition atm_n : nat := %d%%nat." % n)
+    lines.append("")
+    lines.append("Definition zz2q (p : Z * Z) : Q := Qmake (fst p) (Z.to_pos (snd p)).")
+    for cname, _ in cols:
+        lines.append("Definition atm_%s_q : list Q := map zz2q atm_%s_zz." % (cname, cname))
+    lines.append("Section Poly.")
+    lines.append("  Context {T : Type} {K : Ops T}.")
+    lines.append("  Definition zz2t (p : Z * Z) : T := ofrac (fst p) (snd p).")
+    for cname, _ in cols:
+        lines.append("  Definition atm_%s : list T := map zz2t atm_%s_zz." % (cname, cname))
+    lines.append("End Poly.")
+    return "\n".join(lines) + "\n"
+
+
+EXTRA.append(("AtmosTable.v", ["C17"], gen_atmos_table))
+
+
 if __name__ == "__main__":
     ok, log = run()
     print(log)
+    for f in FAILED:
+        print("REFUSED", f)
     sys.exit(0 if ok else 1)
